@@ -85,6 +85,29 @@ Theorem C06_view_from_reference_is_planted_curve :
 Proof. exact planted_view_from_reference. Qed.
 Print Assumptions C06_view_from_reference_is_planted_curve.
 
+(** The chain inside the model, end to end: result of the model of find_offsets
+    on planted, connected data -> rows written to the offsets and crossings
+    tables -> the writers' reference shift -> the view: T(level) - T(reference)
+    at every level the view lists, with no hypothesis left about the stored
+    values. *)
+Theorem C06_solver_to_view_from_reference :
+  forall (start_of : nat -> Z) hm sids offs grid step ref (T : Z -> Q) (cs : nat -> Q),
+  find_offsets hm = Ok (sids, offs) ->
+  NoDup grid ->
+  (forall a b, In a sids -> In b sids -> start_of a = start_of b -> a = b) ->
+  let E := entries_of (drop_single hm) in
+  let O := written_offsets start_of sids offs in
+  let Cr := written_crossings start_of (drop_single hm) in
+  connected E ->
+  (forall c, In c E -> e_val c == T (e_head c) - cs (e_series c)) ->
+  In ref (view_levels O Cr grid) ->
+  forall h, In h (view_levels O Cr grid) ->
+    exists v, In (inject_Z h * step, v)
+                 (view_average (store_with_reference O Cr ref) Cr grid step) /\
+              v == T h - T ref.
+Proof. exact planted_written_view_from_reference. Qed.
+Print Assumptions C06_solver_to_view_from_reference.
+
 (** Non-vacuity: three pieces of T(h) = 10 - 2h with constants 0, 5, -3. *)
 Example C06_example :
   find_offsets [(1%Z, [(0%nat, 8); (1%nat, 3)]); (2%Z, [(0%nat, 6); (1%nat, 1); (2%nat, 9)]);
